@@ -867,6 +867,8 @@ class Message:
         self.encrypted_payloads = encrypted_payloads
         self.crypto = crypto
         self.iv = iv
+        # set by parse() when the message carried a Payload SK whose integrity checksum was verified
+        self.authenticated = False
         if self.crypto is not None and self.iv is None:
             self.iv = self.crypto.cipher.generate_iv()
 
@@ -946,6 +948,7 @@ class Message:
                 checksum = crypto.integrity.compute(crypto.sk_a, data[:-crypto.integrity.hash_size])
                 if checksum != data[-crypto.integrity.hash_size:]:
                     raise InvalidSyntax('CHECKSUM ERROR')
+                message.authenticated = True
 
                 # parse decrypted payloads and remove Payload SK
                 message.iv, decrypted_data = payload_sk.decrypt(crypto)
